@@ -290,7 +290,12 @@ class DetachedServer(ServerBase):
     def handle_request(self, conn: Connection, request: uuid.UUID) -> None:
         """Record the requested task, and ship it as soon as it's ready."""
         if request not in self.clients[conn] or request not in self.tasks:
-            self.outgoing.put((conn, RuntimeMessage.ERROR, 'Unknown task.'))
+            try:
+                # Sent directly: queued messages for a closed connection
+                # are dropped, and the client is disconnected right after.
+                conn.send((RuntimeMessage.ERROR, 'Unknown task.'))
+            except (EOFError, OSError):
+                pass
             self.handle_disconnect(conn)  # Bad client
             return
 
